@@ -375,6 +375,12 @@ def R6_sync(run):
         ok = len(wu) == 1 and any(arg_name(a) == "whirlpool_liquidity" for a in wu[0][2]) and is_param(wu[0][2][0], "whirlpool")
         mm = argname_mismatches(facts, fn, wu[0][0], wu[0][1], wu[0][2]) if wu else ["missing"]
         run.check("R6", "pool@" + short, ok and not mm, "%s does not store update.whirlpool_liquidity into the pool (%s)" % (path, "; ".join(mm)), loc=fn.loc(), detail="pool liquidity := update.whirlpool_liquidity")
+        # ... each of them on every successful path (an early `return Ok(())` after part of the work leaves pool, ticks and position disagreeing)
+        groups = {"pool": [c[0] for c in wu], "position": [c[0] for c in pu],
+                  "lower-tick": [bi for (bi, t, a_) in uts if arg_name(a_[1]) == "tick_lower_index"], "upper-tick": [bi for (bi, t, a_) in uts if arg_name(a_[1]) == "tick_upper_index"]}
+        skipped = sorted(k for k, bs in groups.items() if bs and cfg.success_reach(fn, 0, cut_blocks=bs))
+        run.check("R6", "every-success-path@" + short, not skipped and all(groups.values()), "%s can return successfully without the %s update" % (path, ", ".join(skipped) or "complete"), loc=fn.loc(),
+                  detail="pool, position, lower-tick and upper-tick updates cut every path to a successful return")
         # all results are propagated
         for (bi, t, args) in uts:
             mp = cfg.result_ok_edge(fn, bi)
